@@ -86,3 +86,21 @@ Require RV.Gen.Sites RV.Model.SiteMap RV.Proofs.SitesFacts.
 Theorem C11_literals_reviewed : RV.Model.SiteMap.literals_ok RV.Model.SiteMap.files_C11.
 Proof. apply RV.Proofs.SitesFacts.literals_okb_sound. vm_compute. reflexivity. Qed.
 Print Assumptions C11_literals_reviewed.
+
+(* ---- the signed response AS TRANSLATED FROM THE SOURCE on this run (Gen/Code.v, by /verif/rs2coq
+   from src/key/online.rs): classic_midp (seconds * 1_000_000 + nanoseconds / 1_000, u64), rfc_midp,
+   and make_srep — the radius match (5_000_000 / 5), the per-version choice of midpoint, the field
+   lists and their order, the encode, the signature over prefix ++ SREP — compute what the model
+   computes. The midpoint / radius theorems above therefore hold of the code as written today. *)
+Require Import RV.Model.GenSupport RV.Gen.Code RV.Proofs.CodeKeys.
+
+Theorem C11_translated_midpoints_are_model :
+  forall ok now, gen_classic_midp ok now = Ok (classic_midp now) /\ gen_rfc_midp ok now = Ok (rfc_midp now).
+Proof. intros ok now. split; [apply gen_classic_midp_model|apply gen_rfc_midp_model]. Qed.
+Print Assumptions C11_translated_midpoints_are_model.
+
+Theorem C11_translated_make_srep_is_model :
+  forall ed_sign ok v now root,
+    ok_opt (gen_make_srep ed_sign ok v now root) = ok_opt (make_srep ed_sign v ok now root).
+Proof. exact gen_make_srep_model. Qed.
+Print Assumptions C11_translated_make_srep_is_model.
